@@ -32,6 +32,7 @@ type Env struct {
 	marks  map[string]bool // path marks set by observers; joined by intersection ("on every path")
 	ver    map[cellKey]int // version of strongly updatable cells (bumped by every write)
 	pure   map[string]tri  // outcome of pure comparisons over current cell versions, learned from branches
+	marksAV map[string]AV  // values remembered by observers (kept on joins only when equal)
 	dead   bool
 }
 
@@ -76,6 +77,12 @@ func (e *Env) clone() *Env {
 	n.pure = make(map[string]tri, len(e.pure))
 	for k, v := range e.pure {
 		n.pure[k] = v
+	}
+	if e.marksAV != nil {
+		n.marksAV = make(map[string]AV, len(e.marksAV))
+		for k, v := range e.marksAV {
+			n.marksAV[k] = v
+		}
 	}
 	return n
 }
@@ -214,6 +221,14 @@ func (e *Env) key(live []ssa.Value) string {
 	sort.Ints(ss)
 	for _, s := range ss {
 		fmt.Fprintf(&b, "S%d=%v;", s, e.shapes[SymID(s)])
+	}
+	var mvk []string
+	for k, v := range e.marksAV {
+		mvk = append(mvk, k+"="+e.avKey(bare(v)))
+	}
+	sort.Strings(mvk)
+	for _, k := range mvk {
+		b.WriteString("MV:" + k + ";")
 	}
 	var pk []string
 	for k, v := range e.pure {
@@ -455,6 +470,14 @@ func (eng *Engine) joinEnvs(a, b *Env, site string, live []ssa.Value) *Env {
 	for k, ta := range a.pure {
 		if tb, ok := b.pure[k]; ok && ta == tb {
 			out.pure[k] = ta
+		}
+	}
+	for k, va := range a.marksAV {
+		if vb, ok := b.marksAV[k]; ok && a.avKey(bare(va)) == b.avKey(bare(vb)) {
+			if out.marksAV == nil {
+				out.marksAV = map[string]AV{}
+			}
+			out.marksAV[k] = va
 		}
 	}
 	for s := range a.sumSym {
